@@ -195,7 +195,9 @@ size_t multipart_extract(zckDL *dl, char *b, size_t l) {
             if(size > 0) {
                 mp->buffer = zmalloc(size);
                 if (!mp->buffer) {
-                    free(buf);
+                    /* buf is the caller's buffer unless we joined it ourselves */
+                    if(alloc_buf)
+                        free(buf);
                     zck_log(ZCK_LOG_ERROR, "OOM in %s", __func__);
                     return 0;
                 }
